@@ -36,7 +36,8 @@ INSERT = ["<x y z>", "<", "</x", "(v", "<a", "a>b <", "%foo x", "%define", "%def
           "nosuchkey v", "nosuchkey", "1x v", "<nosuchtype/>", "<nosuchtype n>", "</nosuchtype>",
           "%include nosuchfile.conf", "%import no.such.package", "%define zd $nope", "%define ZD ${x",
           "%define Zd a$", "k $(x", "k $( HOME)", "k a$(/etc", "%define zd $(", "%include $(x", "k $(ZCV_NO_SUCH_ENV_VARIABLE)"]
-BADVALUES = ["abc", "65536", "-1", "5tb", "5x", "1a", "a b", "maybe", "host:99999", "1.2.3", ""]
+BADVALUES = ["abc", "65536", "-1", "5tb", "5x", "1a", "a b", "maybe", "host:99999", "1.2.3", "",
+             "x" * 300, "9" * 257 + "z", "q " * 2000]
 
 
 def split_lines(text):
@@ -76,7 +77,7 @@ def inject(rng, text):
         if kind == "badkey" and idx:
             i = rng.choice(idx)
             parts = lines[i].strip().split(None, 1)
-            bad = rng.choice(["1x", "a/b", "x!", "300.1.1.1", "_y"])
+            bad = rng.choice(["1x", "a/b", "x!", "300.1.1.1", "_y", "1" + "x" * 300, "_" * 5000])
             return kind, join(lines[:i] + [bad + (" " + parts[1] if len(parts) > 1 else "")] + lines[i + 1:])
         if kind in ("header-type", "header-name") and heads:
             i = rng.choice(heads)
